@@ -319,9 +319,17 @@ pub fn run(tier: Tier) -> i32 {
     let cen = models
         .par_iter()
         .fold(Census::new, |mut cen, d| {
-            if let Ok(Ok(c)) = guard(|| prepare(d, KeyForm::Compressed)) {
-                bump(&mut cen, "descriptors");
-                check_desc(&rep, &c, thorough, &mut cen);
+            // uncompressed keys where the context permits them (the plan's placeholders carry the key form)
+            let forms: &[KeyForm] = match d {
+                D::Sh(t) if t.size() <= 4 => &[KeyForm::Compressed, KeyForm::Uncompressed],
+                D::Bare(_) | D::Pkh(_) => &[KeyForm::Compressed, KeyForm::Uncompressed],
+                _ => &[KeyForm::Compressed],
+            };
+            for f in forms {
+                if let Ok(Ok(c)) = guard(|| prepare(d, *f)) {
+                    bump(&mut cen, "descriptors");
+                    check_desc(&rep, &c, thorough, &mut cen);
+                }
             }
             cen
         })
